@@ -80,11 +80,15 @@ def impl_settle(case):
         return {p: case["bal"][p] for p in order}
     pot = Pot(n, f, case["cap"], balances())
     try:
+        if case.get("twice"):
+            # the rake query is read-only: asking twice (also once for an unraked pot) gives the same answer
+            pot.get_rake_per_player(case["rake_pot"]); pot.get_rake_per_player(not case["rake_pot"])
         r = pot.get_rake_per_player(case["rake_pot"])
         out["rake"] = [r[p] for p in range(n)]
     except Exception as e:
         out["rake_exc"] = type(e).__name__
-    pot = Pot(n, f, case["cap"], balances())
+    if not case.get("twice"):
+        pot = Pot(n, f, case["cap"], balances())      # otherwise: settle the very pot that was queried
     try:
         pay, r = pot.settle_showdown([list(t) for t in case["tiers"]], case["rake_pot"])
         out["pay"] = [pay[p] for p in range(n)]
@@ -162,6 +166,8 @@ class C14(Prop):
              "tiers": gen_ranking(rng, bal, True)}
         if rng.random() < 0.3:
             c["korder"] = rng.randrange(1, n + 1)
+        if rng.random() < 0.3:
+            c["twice"] = True
         return c
 
     def generate(self, rng, tier, shard):
@@ -317,6 +323,8 @@ class C02(Prop):
         c = {"bal": bal, "f": core.ratj(f), "cap": cap, "rake_pot": raked, "tiers": gen_ranking(rng, bal, with_max)}
         if rng.random() < 0.3:
             c["korder"] = rng.randrange(1, n + 1)
+        if rng.random() < 0.3:
+            c["twice"] = True
         return c
 
     def generate(self, rng, tier, shard):
